@@ -403,9 +403,47 @@ class Program:
 
         visit(_all_stmts(m.tree.body), m.name, None, None)
 
+    def namedtuple_fields(self, class_q):
+        node = self.classes.get(class_q)
+        if node is None:
+            return None
+        if not any((isinstance(b, ast.Name) and b.id == "NamedTuple") or (isinstance(b, ast.Attribute) and b.attr == "NamedTuple")
+                   for b in node.bases):
+            return None
+        return [n.target.id for n in node.body if isinstance(n, ast.AnnAssign) and isinstance(n.target, ast.Name)]
+
+    def namedtuple_index(self, base, attr):
+        """Position of field `attr` if `base` is known to be a NamedTuple value (the result of an lcm function that is
+        annotated with / returns a NamedTuple class)."""
+        if not (is_term(base) and base[0] == "call" and is_term(base[1]) and base[1][0] == "func"):
+            return None
+        info = self.funcs.get(base[1][1])
+        if info is None:
+            return None
+        names = set()
+        r = info.node.returns
+        if isinstance(r, ast.Name):
+            names.add(r.id)
+        for n in ast.walk(info.node):
+            if isinstance(n, ast.Return) and isinstance(n.value, ast.Call) and isinstance(n.value.func, ast.Name):
+                names.add(n.value.func.id)
+        for nm in sorted(names):
+            for cq in (f"{info.module}.{nm}", self.modules[info.module].imports.get(nm, "")):
+                fields = self.namedtuple_fields(cq)
+                if fields and attr in fields:
+                    return fields.index(attr)
+        return None
+
     def canonical_call(self, f, pargs, kws):
         """Positional arguments of calls to known lcm functions / dataclasses are turned into
         keyword arguments, so that ``g(a, b)`` and ``g(x=a, y=b)`` are the same term."""
+        if is_term(f) and f[0] == "class" and not any(p[0] == "star" for p in pargs) and all(k is not None for k, _ in kws):
+            fields = self.namedtuple_fields(f[1])
+            if fields:
+                given = dict(zip(fields, pargs, strict=False))
+                given.update(dict(kws))
+                if set(given) == set(fields) and len(pargs) <= len(fields):
+                    return ("tuple", tuple(given[k] for k in fields))  # a NamedTuple value is the tuple of its fields
         if (is_term(f) and f[0] == "call" and f[1] == ("glob", "functools.partial") and f[2] and is_term(f[2][0])
                 and f[2][0][0] in ("func", "closure", "glob", "class") and all(k is not None for k, _ in f[3])
                 and all(k is not None for k, _ in kws)):
@@ -1266,6 +1304,10 @@ class _Exec:
                 if dotted == PKG or dotted.startswith(PKG + "."):
                     return self.resolve_dotted(dotted)
                 return ("glob", canon(dotted))
+            idx = self.p.namedtuple_index(base, e.attr)
+            if idx is not None:
+                # field of a NamedTuple value == position in the tuple
+                return _project(base, idx, ("sub", base, ("const", idx)))
             return ("attr", base, e.attr)
         if isinstance(e, ast.Call):
             f = self.expr(e.func)
